@@ -1,1 +1,43 @@
-//! cfg(kani) child module of `crates/core/src/repofile/packfile.rs` (harnesses to be added)
+//! C08 bounded harnesses: cfg(kani) child module of `repofile/packfile.rs`.
+//! The binary header encoding (binrw derive) and the iterator folds `PackHeaderRef::{size, pack_size}` are
+//! outside Verus' reach; here they are checked on the REAL code for blob lists of length <= 2 with fully
+//! symbolic ids (first byte), lengths, compressed/uncompressed variants and types.  BOUNDED stand-in.
+use super::*;
+use crate::blob::BlobId;
+
+fn any_blob(offset: u32) -> IndexBlob {
+    let mut a = [0u8; 32];
+    a[0] = kani::any();
+    a[31] = kani::any();
+    let length: u32 = kani::any();
+    let ul: u32 = kani::any();
+    let compressed: bool = kani::any();
+    IndexBlob {
+        id: BlobId::from(Id::new(a)),
+        tpe: if kani::any() { BlobType::Tree } else { BlobType::Data },
+        location: BlobLocation { offset, length, uncompressed_length: if compressed { NonZeroU32::new(ul) } else { None } },
+    }
+}
+
+fn entry_len(b: &IndexBlob) -> u32 {
+    if b.location.uncompressed_length.is_some() { 41 } else { 37 }
+}
+
+/// sizes computed by the iterator folds: size() == 32 + sum of entry lengths (37 uncompressed / 41
+/// compressed, MIXED within one pack), pack_size() == size() + 4 + sum of blob lengths.
+#[kani::proof]
+#[kani::unwind(4)]
+fn c08_bounded_header_sizes() {
+    let b0 = any_blob(0);
+    kani::assume(b0.location.length < 1_000_000);
+    let b1 = any_blob(b0.location.length);
+    kani::assume(b1.location.length < 1_000_000);
+    let blobs = [b0, b1];
+    let two: bool = kani::any();
+    let hr = PackHeaderRef(if two { &blobs[..] } else { &blobs[..1] });
+    let expect_hdr = entry_len(&b0) + if two { entry_len(&b1) } else { 0 };
+    assert!(hr.size() == expect_hdr + 32, "size() = one 37/41 byte entry per blob + crypto overhead");
+    let data = b0.location.length + if two { b1.location.length } else { 0 };
+    assert!(hr.pack_size() == hr.size() + 4 + data, "pack_size() = blobs + encrypted header + length field");
+    kani::cover!(two && b0.location.uncompressed_length.is_some() != b1.location.uncompressed_length.is_some());
+}
